@@ -96,6 +96,7 @@ class InterpBase:
     self.yield_log = None        # VMList when verifying a generator
     self.events = []             # ghost event log (calls of interest)
     self.obj_ids = []
+    self.call_log = []           # (callee short name, result) of contract calls that returned normally
 
   # ---- path helpers -----------------------------------------------------------------
   @property
@@ -173,6 +174,12 @@ class InterpBase:
       return VLock(name, reentrant=True)
     if ty == 'cond':
       return VLock(name, reentrant=True, cond=True)
+    if ty.startswith('queue['):
+      inner = self.fresh('list[' + ty[6:-1] + ']', name + '.q')
+      cap = z3.Int(self.path.fresh_name(name + '.cap'))
+      self.assume(cap >= 0)
+      self.assume(z3.Or(cap == 0, inner.seq.n <= cap))
+      return VQueue(inner, cap, name)
     if ty.startswith('seq[') or ty.startswith('list[') or ty.startswith('deque['):
       kind = ty[ty.index('[') + 1:-1]
       n = z3.Int(self.path.fresh_name(name + '.len'))
@@ -252,7 +259,10 @@ class InterpBase:
 
   def havoc_in_place(self, v, name):
     """Havoc the mutable content of a heap value, keeping its identity."""
-    if isinstance(v, VMList):
+    if isinstance(v, VQueue):
+      self.havoc_in_place(v.q, name + '.q')
+      self.assume(z3.Or(v.cap == 0, v.q.seq.n <= v.cap))
+    elif isinstance(v, VMList):
       v.seq = self.fresh_like(v.seq, name)
     elif isinstance(v, VIter):
       pos = z3.Int(self.path.fresh_name(name + '.pos'))
